@@ -6,6 +6,21 @@ from engine.paths import Exits, must_pass, conditions, switch_atom, witness_path
 from engine import taint as T
 
 PROPERTY = "C02"
+EXPLANATION = ("E5 ledgers over everything reachable from MinidumpWriter::dump on the dev-profile MIR (overflow checks on): (panic-site) every MIR "
+               "Assert (overflow, bounds, division) and every call to a panicking std/goblin function is an obligation when an operand is "
+               "TARGET/CALLER-tainted (leaf-based taint over origin expressions with an interprocedural parameter fixpoint, seeded by "
+               "tables/taint.json); it is discharged by constant operands, by a dominating guard (path-condition DNF), by value ranges (type widths, "
+               "masks, min-clamps, constant-compared guards), or by an entry of tables/reviewed_panic_sites.json (one site, one reason); "
+               "(explicit-panic) every panic!/assert! is decided by an input-independent branch, established at all call sites, or reviewed; "
+               "(unbounded-loop) every loop is driven by a finite iterator, is a counting loop with an invariant bound, or is reviewed, and the "
+               "reachable call graph has no recursion; (dev-open) every open of a path derived from target-controlled data is dominated "
+               "(interprocedurally) by is_mapped_file_safe_to_open on the same name, paths with a constant /proc|/etc prefix are exempt; "
+               "(dev-prefix) that predicate returns false exactly for names starting with \"/dev/\".")
+TRUSTED = ["tables/taint.json (trust classes)", "table of panicking foreign functions (engine/taint.py); other foreign callees are assumed not to panic",
+           "goblin/procfs-core/scroll/serde_json return Err instead of panicking", "tables/reviewed_panic_sites.json, reviewed_loops.json, reviewed_explicit_panics.json"]
+ASSUMPTIONS = ["blocking inside the kernel (waitpid, reads of /proc files, open on a FIFO) is not decided: bounded time is a runtime property of syscalls",
+               "lengths of in-memory collections are far below 2^47, so adding/multiplying them by small constants cannot overflow",
+               "allocation failure / stack overflow are out of scope", "KERNEL-STRUCTURED values (maps ranges, tids, page size) are not attacker-controlled"]
 VERIF = os.path.dirname(os.path.dirname(os.path.abspath(__file__)))
 
 ENTRIES = ["linux::minidump_writer::MinidumpWriter::dump"]
@@ -52,7 +67,9 @@ def ledger(ctx, taint, rule, scope=None):
                 g = T.guarded_index(s, taint)
             elif s.kind in ("call:unwrap", "call:expect"):
                 g = T.guarded_unwrap(s, taint)
-        except Exception:
+            if not g:
+                g = T.range_discharge(s, taint, s.tys)
+        except Exception as ex:
             g = False
         if g:
             stats["guarded"] += 1
@@ -84,3 +101,408 @@ def run(ctx):
     ctx.analysed["taint_rounds"] = taint.rounds
     st = ledger(ctx, taint, "C02/panic-site")
     ctx.analysed["panic_sinks"] = st
+    ctx.analysed["explicit_panics"] = rule_explicit_panic(ctx, taint)
+    ctx.analysed["loops"] = rule_loops(ctx, taint)
+    rule_dev_open(ctx, taint)
+    rule_dev_prefix(ctx)
+
+
+# ------------------------------------------------------------------------------------ explicit panics
+def nearest_guard(b, o, block):
+    """literal (atom, value) of the branch that immediately decides entering `block` (through unique predecessors)"""
+    x = block
+    hops = 0
+    while hops < 12:
+        ps = [p for p in b.preds.get(x, ()) if not b.blocks[p]["cleanup"]]
+        if len(ps) != 1:
+            return None
+        p = ps[0]
+        t = b.term(p)
+        if t["k"] == "switch":
+            atom, hint = switch_atom(b, o, p)
+            for (s, lab) in b.succ_edges(p):
+                if s == x and lab[0] == "sw":
+                    return (atom, lab[1] if lab[1] != "otherwise" else ("not", lab[2]))
+            return None
+        x = p
+        hops += 1
+    return None
+
+
+def load_json(name, key):
+    p = os.path.join(VERIF, "tables", name)
+    if not os.path.exists(p):
+        return {}
+    with open(p) as f:
+        return {e["key"]: e["reason"] for e in json.load(f)[key]}
+
+
+def rule_explicit_panic(ctx, taint, rule="C02/explicit-panic", scope=None):
+    prog = ctx.prog
+    reviewed = load_json("reviewed_explicit_panics.json", "sites")
+    n = 0
+    for f in sorted(taint.reach):
+        if is_derived(f) or (scope and not scope(f)):
+            continue
+        for b in prog.by_short.get(f, ()):
+            o = taint.origin(b)
+            k = 0
+            for bi, t in b.calls(lambda c: (c.short or "").startswith("core::panicking") or (c.short or "") in ("std::rt::begin_panic", "std::process::abort", "std::process::exit")):
+                n += 1
+                k += 1
+                g = nearest_guard(b, o, bi)
+                key = (f, "panic#%d" % k)
+                if g is None:
+                    ctx.unproven(rule, key, b.where(bi), "explicit panic whose deciding branch cannot be identified")
+                    continue
+                atom, val = g
+                if not taint.tainted(atom, f):
+                    ctx.ok(rule, key, b.where(bi), "explicit panic decided by an input-independent condition: %s" % show(atom)[:120], nontrivial=False)
+                    continue
+                # precondition established at every call site?
+                if precondition_at_callers(ctx, taint, b, atom, val):
+                    ctx.ok(rule, key, b.where(bi), "assertion %s is established by a guard at every call site" % show(atom)[:100])
+                    continue
+                rk = "%s|%s" % (f, T.canon_key(atom))
+                if rk in reviewed:
+                    ctx.ok(rule, key, b.where(bi), "reviewed — %s" % reviewed[rk])
+                    continue
+                ctx.violated(rule, key, b.where(bi), "explicit panic reachable under a target/caller-controlled condition: %s == %s" % (show(atom)[:160], val), detail={"review_key": rk})
+    return n
+
+
+def precondition_at_callers(ctx, taint, body, atom, val):
+    """assert!(P(params)) inside `body`: every local call site must carry P(args) on all paths"""
+    if not (atom[0] == "bin" and atom[1] in ("Lt", "Le", "Gt", "Ge") and all(core(x)[0] == "param" for x in (atom[2], atom[3]))):
+        return False
+    # panic happens when the assertion is false: val is the value of the comparison on the panicking edge
+    want_true = (val == 0)
+    if not want_true:
+        return False
+    pa, pb = core(atom[2])[1], core(atom[3])[1]
+    sites = 0
+    for f in taint.reach:
+        for cb in ctx.prog.by_short.get(f, ()):
+            co = taint.origin(cb)
+            for x, t in cb.calls(lambda c: c.target == body.short or c.short == body.short):
+                sites += 1
+                args = co.call_args(x)
+                a, b_ = args[pa - 1], args[pb - 1]
+                dnf = conditions(cb, x, origin=co, relevant=lambda at: at[0] == "bin" and at[1] in ("Lt", "Le", "Gt", "Ge"))
+                if not dnf:
+                    return False
+                def ok(at, v):
+                    if T._same(at[2], a) and T._same(at[3], b_):
+                        return (at[1] == atom[1] and v == 1) or ({"Lt": "Ge", "Le": "Gt", "Gt": "Le", "Ge": "Lt"}[atom[1]] == at[1] and v == 0)
+                    if T._same(at[2], b_) and T._same(at[3], a):
+                        flip = {"Lt": "Gt", "Le": "Ge", "Gt": "Lt", "Ge": "Le"}[atom[1]]
+                        return (at[1] == flip and v == 1) or ({"Lt": "Ge", "Le": "Gt", "Gt": "Le", "Ge": "Lt"}[flip] == at[1] and v == 0)
+                    return False
+                if not all(any(ok(at, v) for (at, v) in c) for c in dnf):
+                    return False
+    return sites > 0
+
+
+# ------------------------------------------------------------------------------------ loops
+FINITE_ITER = ("std::slice::Iter<", "std::slice::IterMut<", "std::iter::Enumerate<", "std::iter::Map<", "std::iter::Filter<", "std::iter::Chain<",
+               "std::vec::IntoIter<", "std::ops::Range<", "std::ops::RangeInclusive<", "std::slice::ChunksExactMut<", "std::slice::ChunksExact<",
+               "std::slice::RChunksExactMut<", "std::slice::SplitN<", "std::str::Split<", "std::io::Lines<", "std::fs::ReadDir",
+               "std::iter::range::<impl std::iter::Iterator for std::ops::Range", "&mut I", "procfs_core::process::MemoryMaps", "std::iter::Rev<", "std::str::CharIndices")
+LOCAL_FINITE_ITER = {
+    "<linux::auxv::reader::ProcfsAuxvIter as std::iter::Iterator>::next": "yields until AT_NULL / EOF / first error of a finite procfs file (keep_going is cleared before each item)",
+    "<linux::module_reader::DynIter<'_> as std::iter::Iterator>::next": "consumes a fixed-size entry of a finite slice per item",
+}
+
+
+def rule_loops(ctx, taint, rule="C02/unbounded-loop", scope=None):
+    prog = ctx.prog
+    reviewed = load_json("reviewed_loops.json", "loops")
+    n = 0
+    for f in sorted(taint.reach):
+        if is_derived(f) or (scope and not scope(f)):
+            continue
+        for b in prog.by_short.get(f, ()):
+            loops = b.loops()
+            if not loops:
+                continue
+            o = taint.origin(b)
+            back = b.back_edges()
+            k = 0
+            for h in sorted(loops):
+                body = loops[h]
+                n += 1
+                k += 1
+                key = (f, "loop#%d" % k)
+                latches = [t_ for (t_, hh) in back if hh == h]
+                verdict = None
+                # (a) iterator driven
+                for x in body:
+                    t = b.term(x)
+                    if t["k"] == "call" and lastseg_(CalleeView(t["callee"]).short) == "next" and all(b.dominates(x, l) for l in latches):
+                        cv = CalleeView(t["callee"])
+                        inst = cv.inst or ""
+                        tgt = cv.target or ""
+                        sw = t["t"]
+                        exits_here = b.term(sw)["k"] == "switch" and any(s not in body for s in b.succs(sw, unwind=False))
+                        if not exits_here:
+                            continue
+                        if tgt in LOCAL_FINITE_ITER:
+                            verdict = ("ok", "driven by %s: %s" % (tgt.split("::")[-2] if "::" in tgt else tgt, LOCAL_FINITE_ITER[tgt]))
+                        elif any(p in inst for p in FINITE_ITER) or any(p in tgt for p in FINITE_ITER):
+                            verdict = ("ok", "driven by a finite std iterator (%s)" % (inst[:70]))
+                        elif "goblin" in inst:
+                            verdict = ("ok", "driven by a goblin iterator over a finite byte slice (%s)" % inst[:60])
+                if verdict is None:
+                    verdict = counter_loop(b, o, h, body, latches, taint, f)
+                if verdict is None:
+                    rk = "%s|loop@%s" % (f, loop_signature(b, o, h, body))
+                    if rk in reviewed:
+                        verdict = ("ok", "reviewed — %s" % reviewed[rk])
+                    else:
+                        tainted_exit = False
+                        for x in body:
+                            if b.term(x)["k"] == "switch" and any(s not in body for s in b.succs(x, unwind=False)):
+                                a, _ = switch_atom(b, o, x)
+                                if taint.tainted(a, f):
+                                    tainted_exit = True
+                        verdict = ("violated" if tainted_exit else "unproven", "loop with no structural bound%s" % (": its exit depends on target/caller-controlled data" if tainted_exit else ""), rk)
+                if verdict[0] == "ok":
+                    ctx.ok(rule, key, b.where(h), verdict[1])
+                elif verdict[0] == "violated":
+                    ctx.violated(rule, key, b.where(h), verdict[1], detail={"review_key": verdict[2]})
+                else:
+                    ctx.unproven(rule, key, b.where(h), verdict[1], detail={"review_key": verdict[2]})
+    # recursion: no cycle in the reachable call graph
+    cg, _ = prog.callgraph()
+    cyc = find_cycle({f: [c for c in cg.get(f, ()) if c in taint.reach] for f in taint.reach if not is_derived(f)})
+    ctx.check(cyc is None, rule, "no-recursion", None, "no recursion among the %d reachable functions" % len(taint.reach), "recursive call cycle: %s" % (cyc,), nontrivial=False)
+    return n
+
+
+def lastseg_(n):
+    return n.split("::")[-1] if n else ""
+
+
+def loop_signature(b, o, h, body):
+    """stable key of a loop: canonical exit atoms"""
+    atoms = []
+    for x in sorted(body):
+        if b.term(x)["k"] == "switch" and any(s not in body and b.term(s)["k"] != "unreachable" for s in b.succs(x, unwind=False)):
+            a, _ = switch_atom(b, o, x)
+            atoms.append(T.canon_key(a)[:60])
+    return ";".join(atoms)[:200]
+
+
+def counter_loop(b, o, h, body, latches, taint, f):
+    """exit condition compares a value that strictly increases every iteration against a loop-invariant bound"""
+    for x in sorted(body):
+        t = b.term(x)
+        if t["k"] != "switch" or not any(s not in body for s in b.succs(x, unwind=False)):
+            continue
+        if not all(b.dominates(x, l) for l in latches):
+            continue
+        a, _ = switch_atom(b, o, x)
+        if not (a[0] == "bin" and a[1] in ("Lt", "Le", "Gt", "Ge")):
+            continue
+        for var, bound in ((a[2], a[3]), (a[3], a[2])):
+            v = strip(var)
+            # collection length that grows by a push on every iteration
+            if v[0] == "call" and lastseg_(v[1]) == "len" and is_const(core(bound)):
+                coll = strip(v[2][0])
+                pushes = [y for y in body if b.term(y)["k"] == "call" and lastseg_(CalleeView(b.term(y)["callee"]).short) == "push" and nosite(strip(o.call_args(y)[0])) == nosite(coll)]
+                if pushes and all(must_pass(b, h_succ, {h}, set(pushes)) is None for h_succ in [s for s in b.succs(x, unwind=False) if s in body]):
+                    return ("ok", "bounded: exits when len(%s) reaches the constant %s and every iteration pushes one element" % (show(coll)[:40], core(bound)[1]))
+            if v[0] != "phi":
+                continue
+            incs = []
+            okform = True
+            selfs = set()
+            rest = []
+            for alt in v[1]:
+                al = strip(alt)
+                if al[0] == "loop":
+                    selfs.add(al[1])
+                    continue
+                c = core(al)
+                step = None
+                base = None
+                if c[0] == "bin" and c[1] in ("Add", "AddUnchecked"):
+                    base, step = c[2], c[3]
+                elif c[0] == "call" and lastseg_(c[1]) in ("checked_add", "saturating_add", "wrapping_add") and len(c[2]) == 2:
+                    base, step = c[2][0], c[2][1]
+                if base is not None and any(s[0] == "loop" for s in walk(base)) and not any(s[0] == "loop" for s in walk(step)):
+                    st_ = core(step)
+                    positive = (is_const(st_) and st_[1] > 0) or (not is_const(st_) and T.maxval(st_) is not None) or (st_[0] == "field" and st_[2] == "page_size") or (st_[0] == "call" and lastseg_(st_[1]) in ("size_of", "size_with"))
+                    if positive:
+                        incs.append(1)
+                        bs = strip(base)
+                        if bs[0] == "loop":
+                            selfs.add(bs[1])
+                        elif bs[0] == "phi":
+                            for z in bs[1]:
+                                if strip(z)[0] == "loop":
+                                    selfs.add(strip(z)[1])
+                        continue
+                rest.append(al)
+            # the remaining alternatives are initial values: they must not depend on this loop's own variable
+            for al in rest:
+                if any(s[0] == "loop" and s[1] in selfs for s in walk(al)):
+                    okform = False
+            inv = not any(s[0] == "loop" and s[1] in selfs for s in walk(bound))
+            if okform and incs and inv:
+                return ("ok", "counting loop: %s advances by a loop-invariant positive step towards the loop-invariant bound %s" % (show(v)[:50], show(bound)[:50]))
+    return None
+
+
+def find_cycle(g):
+    color = {}
+    def dfs(u, stack):
+        color[u] = 1
+        stack.append(u)
+        for v in g.get(u, ()):
+            if color.get(v, 0) == 1:
+                return stack[stack.index(v):] + [v]
+            if color.get(v, 0) == 0:
+                r = dfs(v, stack)
+                if r:
+                    return r
+        stack.pop()
+        color[u] = 2
+        return None
+    import sys
+    sys.setrecursionlimit(10000)
+    for u in list(g):
+        if color.get(u, 0) == 0:
+            r = dfs(u, [])
+            if r:
+                return r
+    return None
+
+
+# ------------------------------------------------------------------------------------ /dev open
+OPEN_CALLS = ("std::fs::File::open", "std::fs::read", "std::fs::read_to_string", "std::fs::read_dir", "std::fs::OpenOptions::open",
+              "procfs_core::FromRead::from_file", "std::fs::File::create", "std::fs::copy")
+SAFE = "linux::maps_reader::MappingInfo::is_mapped_file_safe_to_open"
+CONST_PREFIXES = ("/proc/", "/etc/", "/sys/")
+
+
+def const_prefixed(e):
+    for s in walk(e):
+        if s[0] == "str":
+            txt = "".join(ch for ch in s[1] if ch.isprintable() and ord(ch) >= 32 and ch != "�")
+            if txt.startswith(CONST_PREFIXES) or any(p in s[1][:12] for p in CONST_PREFIXES):
+                return True
+    return False
+
+
+def name_core(e):
+    """the mapping-name value a path expression is derived from (through Some/unwrap/clone/Path::new/...)"""
+    e = strip(e)
+    while True:
+        if e[0] == "call" and lastseg_(e[1]) in ("unwrap_or_default", "unwrap", "as_os_str", "as_path", "to_path_buf", "from", "new", "to_owned", "into", "as_ref", "display", "join") and e[2]:
+            e = strip(e[2][0])
+        elif e[0] in ("some", "okval", "conv"):
+            e = strip(e[1])
+        else:
+            return e
+
+
+def guarded_by_safe(b, o, block, path_expr):
+    dnf = conditions(b, block, origin=o, relevant=lambda a: a[0] == "call" and a[1] == SAFE)
+    if not dnf:
+        return False
+    want = nosite(name_core(path_expr))
+    def ok(a, v):
+        return v == 1 and nosite(name_core(a[2][0])) == want
+    return all(any(ok(a, v) for (a, v) in c) for c in dnf)
+
+
+def rule_dev_open(ctx, taint, rule="C02/dev-open"):
+    prog = ctx.prog
+    n_guarded = 0
+    n_total = 0
+    seen_keys = {}
+
+    def check(b, block, path_expr, chain, depth):
+        """returns list of (verdict, msg) for one open obligation at (b, block) with path origin path_expr"""
+        o = taint.origin(b)
+        f = b.short
+        if const_prefixed(path_expr):
+            return [("exempt", "constant /proc|/etc path")]
+        if guarded_by_safe(b, o, block, path_expr):
+            return [("guarded", "dominated by is_mapped_file_safe_to_open(same name) in %s" % f.split("::")[-1])]
+        c = name_core(path_expr)
+        # obligation exported through a parameter (or a closure up-var)
+        params = [s for s in walk(c) if s[0] == "param"]
+        if c[0] == "param" and depth < 4:
+            res = []
+            callers = 0
+            for g in taint.reach | {x.short for x in prog.bodies}:
+                for cb in prog.by_short.get(g, ()):
+                    co = taint.origin(cb)
+                    for x, t in cb.calls(lambda cv: cv.target == f or cv.short == f):
+                        callers += 1
+                        args = co.call_args(x)
+                        if c[1] - 1 < len(args):
+                            res += check(cb, x, args[c[1] - 1], chain + [f], depth + 1)
+            if callers == 0:
+                return [("no-caller", "no caller in the crate (public API entry)")]
+            return res
+        if not taint.tainted(path_expr, f):
+            return [("untainted", "path is not derived from target-controlled data")]
+        return [("open", "target-derived path %s is opened in %s without is_mapped_file_safe_to_open" % (show(c)[:80], f.split("::")[-1]))]
+
+    for f in sorted({x.short for x in prog.bodies}):
+        if is_derived(f) or f.endswith("::tests") or "::test::" in f:
+            continue
+        for b in prog.by_short.get(f, ()):
+            o = None
+            for bi, t in b.calls(lambda cv: (cv.short or "") in OPEN_CALLS or (cv.target or "") in OPEN_CALLS):
+                if o is None:
+                    o = taint.origin(b)
+                n_total += 1
+                args = o.call_args(bi)
+                path_expr = args[0] if args else ("unit",)
+                res = check(b, bi, path_expr, [], 0)
+                k0 = (f, lastseg_(CalleeView(t["callee"]).short))
+                seen_keys[k0] = seen_keys.get(k0, 0) + 1
+                key = k0 + ("#%d" % seen_keys[k0],)
+                bad = [m for v, m in res if v == "open"]
+                if any(v == "guarded" for v, m in res):
+                    n_guarded += 1
+                ctx.check(not bad, rule, key, b.where(bi), "open of %s: %s" % (show(name_core(path_expr))[:60], "; ".join(sorted({m for v, m in res}))[:200]),
+                          "; ".join(bad)[:300], nontrivial=any(v in ("guarded", "open") for v, m in res))
+    ctx.floor(rule, "open call sites in the crate", n_total, 10)
+    ctx.floor(rule, "opens of mapping names guarded by is_mapped_file_safe_to_open", n_guarded, 2)
+
+
+def rule_dev_prefix(ctx, rule="C02/dev-prefix"):
+    b = ctx.body(rule, SAFE)
+    if b is None:
+        return
+    o = Origin(b)
+    # all assignments to _0
+    rets = []
+    for bi, blk in enumerate(b.blocks):
+        for si, st in enumerate(blk["stmts"]):
+            if st["k"] == "assign" and st["p"]["l"] == 0 and not st["p"]["proj"]:
+                v = o._rvalue(st["r"], (bi, si), 0)
+                rets.append((bi, si, v))
+    sw = [s for x, t in b.calls(lambda c: lastseg_(c.short) == "starts_with") for s in [o.call_args(x)]]
+    ctx.floor(rule, "starts_with test", len(sw), 1)
+    for a in sw:
+        lit = [s for s in walk(a[1]) if s[0] == "str"]
+        recv = a[0]
+        ok = bool(lit) and lit[0][1].startswith("/dev/") and len(lit[0][1].rstrip("\x00")) == 5 and any(s[0] == "call" and lastseg_(s[1]) == "as_bytes" for s in walk(recv)) and any(s == ("param", 1) for s in walk(recv))
+        ctx.check(ok, rule, "literal", b.where(0), "the name's bytes are tested against the literal prefix \"/dev/\"", "prefix test is starts_with(%s) on %s" % ([s[1] for s in lit], show(recv)[:80]))
+    falses = [(bi, si) for bi, si, v in rets if is_const(v) and v[1] == 0]
+    trues = [(bi, si) for bi, si, v in rets if is_const(v) and v[1] == 1]
+    ctx.check(len(falses) == 1 and len(trues) >= 1 and len(falses) + len(trues) == len(rets), rule, "returns", b.where(0), "one `false` return and otherwise `true`", "returns are %s" % [show(v) for _, _, v in rets])
+    for bi, si in falses:
+        dnf = conditions(b, bi, origin=o, relevant=lambda a: a[0] == "call" and lastseg_(a[1]) == "starts_with")
+        ok = bool(dnf) and all(any(v == 1 for (_, v) in c) for c in dnf)
+        ctx.check(ok, rule, "false-iff-dev", b.where(bi, si), "`false` is returned exactly on the starts_with(\"/dev/\") branch", "`false` is not tied to the /dev/ prefix test")
+    for bi, si in trues:
+        dnf = conditions(b, bi, origin=o, relevant=lambda a: a[0] == "call" and lastseg_(a[1]) == "starts_with")
+        ok = dnf is not None and all(not any(v == 1 for (_, v) in c) for c in dnf)
+        ctx.check(ok, rule, "true-never-dev", b.where(bi, si), "`true` is never returned for a name with the /dev/ prefix", "`true` can be returned for a /dev/ name")
